@@ -174,11 +174,16 @@ BLOCKS = {
     "ppm.DSP_hard": (lambda p: PPM.DSP(p.ppm_wave, 4, "hard", 0.5), True, False),
     "ppm.BER_est": (lambda p: PPM.BER_analizer("estimator", eye_obj=p.eye, M=4, decision="hard"), False, False),
     "lab.SYNC": (lambda p: LAB.SYNC(electrical_signal(np.roll(np.tile(np.kron(p.bits, np.ones(gv.sps)), 3), 5)), p.bits), False, False),
+    "lab.GET_EYE_v2": (lambda p: LAB.GET_EYE_v2(p.e, p.bits, 32), False, False),
+    "utils.spectral": (lambda p: (U.phase(np.exp(1j * p.ua)), U.tau_g(np.exp(1j * np.cumsum(p.ua) * 0.01), gv.fs), U.dispersion(np.exp(1j * np.cumsum(p.ua) * 0.01), gv.fs, gv.f0),
+                                  U.norm(np.abs(p.ua) + 1), U.nearest(p.ua, 0.3), U.gaus(p.ua, 0.1, 2.0), U.idb(p.ua), U.idbm(p.ua), U.dbm(p.ua ** 2 + 1)), False, False),
+    "typing.apply": (lambda p: (p.e.apply(np.cumsum), p.x2.apply(np.roll, 3, axis=-1), p.x1.abs("noise"), p.e.phase(), p.x1.t(), p.e("w")("t"), abs(p.e.power("signal"))), False, False),
     "utils": (lambda p: (U.db(p.ua ** 2 + 1), U.Q(p.ua), U.dec2bin(37, 8), U.str2array("1 2;3 4"), U.shortest_int(p.ua, 50), U.rcos(p.ua, 0.5, 1.0), U.si(gv.fs, "Hz")), False, False),
     "typing": (lambda p: (p.x2("w", True), p.e[3:17:2], p.x1 + p.x1, p.e * 2.0, p.e > 0.5, p.x2.power(), p.e.w(True), p.x1.copy()), False, False),
 }
 SLOW = {"GET_EYE", "ook.DSP", "FBG", "FIBER_nl"}
-MIN_SPS = {"DAC_gauss": 2, "GET_EYE": 4, "ook.DSP": 4}   # documented / structural domain of the block (C05: Gaussian DAC for sps >= 2; eye needs samples per slot)
+MIN_SPS = {"DAC_gauss": 2, "GET_EYE": 4, "ook.DSP": 4, "lab.GET_EYE_v2": 4}
+EVEN_SPS = {"lab.GET_EYE_v2"}      # its +-5% window is centred on a sample only for even sps (otherwise it holds no sample at all)   # documented / structural domain of the block (C05: Gaussian DAC for sps >= 2; eye needs samples per slot)
 BLOCK_NAMES = sorted(BLOCKS)
 
 
@@ -298,7 +303,7 @@ class Interp:
 
     def call(self, s):
         name = s["block"]
-        if gv.sps < MIN_SPS.get(name, 1):
+        if gv.sps < MIN_SPS.get(name, 1) or (name in EVEN_SPS and gv.sps % 2):
             name = "DAC_nrz"
         fn, stochastic, rng_sensitive = BLOCKS[name]
         p = self.pool(s["pool"])
